@@ -1474,7 +1474,44 @@ def _run_all(scratch, what):
     with cf.ProcessPoolExecutor(max_workers=4, mp_context=ctx) as ex:
         for r in ex.map(_run_type, jobs):
             res += r
+    if "process" in what or "setters" in what:
+        res += f32sum_lemma()
     return res
+
+
+def f32sum_lemma():
+    """L-f32sum (used by smt.Env.f32_sum for the f32 input-need formulas) derived from the rounding model instead of trusted: a left-to-
+    right f32 sum of n <= 4 addends, each computed with at most three roundings (two conversions and a quotient: relative factor within
+    (1+u)^2/(1-u), u = 2^-24), every addition rounding with relative error <= u, deviates from the exact sum by at most 2^-21 * sum|addend|.
+    Induction on the partial sums: |s_k - S_k| <= B_k * M_k with B_1 = w, B_{k+1} = max(B_k, w)(1+u) + u; each step is one nonlinear real query."""
+    from fractions import Fraction as Fr
+    u = Fr(1, 2 ** 24)
+    w = (1 + u) ** 2 / (1 - u) - 1
+    q = lambda fr: z3.Q(fr.numerator, fr.denominator)
+    out = []
+    B = w
+    fns = ["f32 input-need formulas (update_ratio / process_into_buffer post block of the fixed-output types)"]
+    for k in range(2, 5):
+        Bn = max(B, w) * (1 + u) + u
+        s, S, M, a, ah, e = z3.Reals("s S M a ah e")
+        mag = z3.If(a >= 0, a, -a)
+        sv = z3.Solver()
+        sv.set("timeout", 60000)
+        sv.add(M >= 0, S <= M, S >= -M, s - S <= q(B) * M, s - S >= -q(B) * M, ah - a <= q(w) * mag, ah - a >= -q(w) * mag, e <= q(u), e >= -q(u))
+        t0 = time.time()
+        guard = sv.check()
+        s2 = (s + ah) * (1 + e)
+        sv.add(z3.Or(s2 - (S + a) > q(Bn) * (M + mag), s2 - (S + a) < -q(Bn) * (M + mag)))
+        r = sv.check()
+        st = DISCHARGED if (r == z3.unsat and guard == z3.sat) else (FAILED if r == z3.sat else UNDECIDED)
+        out.append(Obligation("L-f32sum.induction_step(%d addends): |partial sum - exact| <= %.7f * 2^-24 * sum|addend|" % (k, float(Bn / u)),
+                              "z3-%s" % z3.get_version_string(), st, time.time() - t0, "complete-real", fns, checks=2,
+                              detail="" if st == DISCHARGED else "guard=%s goal=%s" % (guard, r)))
+        B = Bn
+    ok = B <= Fr(1, 2 ** 21)
+    out.append(Obligation("L-f32sum.bound: the constant after 4 addends is below 2^-21", "exact rational arithmetic", DISCHARGED if ok else FAILED, 0.0,
+                          "complete-real", fns, checks=1))
+    return out
 
 
 ASSUME_TEXT = [
@@ -1482,7 +1519,8 @@ ASSUME_TEXT = [
     "enough that the f32 input-need formula is within 1/4 frame (D <= 1/4, i.e. max_chunk/min_ratio <= ~2^18)",
     "machine floats modelled as reals with a relative rounding error per operation (2^-53 / 2^-24), floor(x) <= fl(x) <= ceil(x), identical "
     "operations give identical results; overflow/underflow excluded by the domain",
-    "trusted lemma L-f32sum (DESIGN.md 5): an f32 sum of <= 4 converted addends is within 2^-21 * sum|addend| of the exact sum",
+    "lemma L-f32sum (an f32 sum of <= 4 converted addends is within 2^-21 * sum|addend| of the exact sum) is derived from that rounding model on every "
+    "run (obligations L-f32sum.*), no longer trusted on its own",
     "carve-outs (known findings F5, F6, F11/F12): obligations are proved for calls that are not ramps (current ratio == target ratio), for fixed-input "
     "configurations with an integer A >= 1/min_ratio such that A <= L-4 and (A-1)*max_ratio <= 7, and for oversampling_factor >= 3 (Cubic, Quadratic) / >= 2 (Linear)",
     "callee contracts of get_nearest_time* are proved bit-precisely by Kani (kani/verif_interpolation__nearest.rs) and used modularly here",
